@@ -39,7 +39,9 @@ is `out-of-range-error:<kind>:<form>:<class>`.
 ld.lld runs only on members wild rejects, plus one accepted far member per kind (quick: two kinds)
 to calibrate the walker (a walker that rejects lld's output is a machinery error, exit 2).
 Outputs are 130-330 MB each: /dev/shm, IN_FLIGHT links at a time, deleted as soon as walked; pads are
-sparse files shared by hard links. Wall caps (C11_CAP_S) stop the enumeration and are reported.
+sparse files shared by hard links. Wall caps (C11_CAP_S; quick 35 s, thorough 780 s): no member starts
+after the cap and a link still running 20 s (thorough 60 s) later is abandoned, never judged; both are
+reported (capped, abandoned_links) and such a run is not called exhaustive.
 Env: C11_ONLY=<regex on member id>, C11_PROGRESS=1, C11_IN_FLIGHT=<n>, C11_KEEP=<dir> (with --replay:
 keep the member's inputs there and print the wild / ld.lld command lines)."""
 import json
@@ -58,13 +60,15 @@ import thunkfam as T
 
 MiB = T.MiB
 PADS = (64 * MiB, 64 * MiB, 127 * MiB, 127 * MiB, 64 * MiB)
+PADS_LIGHT = (2 * MiB, 2 * MiB, 130 * MiB, 2 * MiB, 2 * MiB)      # quick tier: outputs of ~134 MiB instead of 190-320
 EDGE_E = tuple(range(-20, 12, 4))
 OUTS = ("exe", "pie")
 DECOY_FAMILIES = ("main", "ncall", "a16")
 IN_FLIGHT = int(os.environ.get("C11_IN_FLIGHT", 4))   # outputs are 130-330 MB each
 RANGE_ERR = re.compile(r"out of range|outside of bounds|no thunk|thunk|overflow|does not fit|too (far|large)", re.I)
 BASE = None          # scratch directory (set in main; inherited by the forked workers)
-DEADLINE = None
+DEADLINE = None      # no member is started after it; a link still running GRACE seconds later is abandoned
+GRACE = 20
 
 
 # ------------------------------------------------------------------------------------- family
@@ -92,15 +96,18 @@ def spec_blocks(spec):
         pad = ("pad", 128 * MiB - 16 + spec["e"])
         return [("caller",), pad, ("callee",)] if spec["caller"] < spec["callee"] else \
                [("callee",), pad, ("caller",)]
-    return T.blocks_for(PADS, spec["caller"], spec["callee"])
+    return T.blocks_for(PADS_LIGHT if spec.get("light") else PADS, spec["caller"], spec["callee"])
 
 
-def member(family, kind, form, caller, callee, out, e=0):
+def member(family, kind, form, caller, callee, out, e=0, light=False):
     s = dict(family=family, kind=kind, form=form, caller=caller, callee=callee, out=out)
     if family == "edge":
         s["e"] = e
+    if light:
+        s["light"] = True
     s["cls"] = dist_class(s)
-    s["id"] = f"{family}:{kind}:{form}:{caller}>{callee}{f'e{e:+d}' if family == 'edge' else ''}:{s['cls']}:{out}"
+    s["id"] = (f"{family}{'~light' if light else ''}:{kind}:{form}:{caller}>{callee}"
+               f"{f'e{e:+d}' if family == 'edge' else ''}:{s['cls']}:{out}")
     return s
 
 
@@ -141,27 +148,31 @@ def enumerate_a16():
 
 
 def quick_members():
-    """28 members, the far ones first (a capped run has still seen every kind): every kind x form once
-    on a far placement (direction, depth and output kind rotate with the cell index), six edge
-    members, two ncall and two a16 members, every kind once near/mid."""
-    far = [(0, 4), (4, 0), (1, 4), (4, 2)]
-    near = [(2, 3), (3, 1), (0, 2)]
+    """30 members, the same generators over the light pad vector PADS_LIGHT (2, 2, 130, 2, 2 MiB: one pad
+    beyond the branch range, outputs of ~134 MiB): every kind x form once on a placement across the big
+    pad (direction, depth and output kind rotate with the cell index), six edge members, two ncall and two
+    a16 members, every kind once on a near placement; last, two members of the thorough family proper
+    (318 MiB, several thunk blocks). A run that hits its wall cap drops members from the end."""
+    far = [(0, 4), (4, 0), (1, 3), (3, 1)]
+    near = [(3, 4), (1, 0), (4, 3)]
     out = []
     for fi, f in enumerate(("bl", "b")):
         for ki, k in enumerate(T.KINDS):
             a, b = far[(ki + fi) % len(far)]
-            out.append(member("main", k, f, a, b, OUTS[(ki + fi) % 2]))
+            out.append(member("main", k, f, a, b, OUTS[(ki + fi) % 2], light=True))
     for i, (k, f, (a, b), e) in enumerate((("global", "bl", (0, 1), -16), ("global", "bl", (0, 1), -12),
                                            ("global", "b", (1, 0), 0), ("global", "b", (1, 0), 4),
                                            ("local", "bl", (0, 1), -4), ("local", "b", (1, 0), 4))):
         out.append(member("edge", k, f, a, b, OUTS[i % 2], e))
-    out.append(member("ncall", "global-from-align32", "bl", 0, 4, "exe"))
-    out.append(member("ncall", "global-from-custom", "b", 4, 3, "pie"))
-    out.append(member("a16", "global-a16", "bl", 0, 3, "pie"))
-    out.append(member("a16", "global-a16", "b", 4, 1, "exe"))
+    out.append(member("ncall", "global-from-align32", "bl", 0, 4, "exe", light=True))
+    out.append(member("ncall", "global-from-custom", "b", 4, 3, "pie", light=True))
+    out.append(member("a16", "global-a16", "bl", 0, 3, "pie", light=True))
+    out.append(member("a16", "global-a16", "b", 4, 1, "exe", light=True))
     for ki, k in enumerate(T.KINDS):
         a, b = near[ki % len(near)]
-        out.append(member("main", k, ("bl", "b")[ki % 2], a, b, OUTS[(ki + 1) % 2]))
+        out.append(member("main", k, ("bl", "b")[ki % 2], a, b, OUTS[(ki + 1) % 2], light=True))
+    out.append(member("main", "global", "bl", 0, 4, "exe"))
+    out.append(member("main", "ifunc", "b", 4, 0, "pie"))
     return out
 
 
@@ -170,7 +181,7 @@ def pad_path(size, align=4):
     p = os.path.join(BASE, "shared", f"pad{size}a{align}.o")
     if not os.path.exists(p):
         tmp = f"{p}.{os.getpid()}"
-        T.write_pad(tmp, size, align)
+        T.write_pad(tmp, size, align, dense=not os.environ.get("C11_SPARSE_PADS"))
         os.replace(tmp, p)
     return p
 
@@ -191,7 +202,7 @@ def prepare_shared():
                        stdout=subprocess.PIPE, stderr=subprocess.PIPE)
     if r.returncode != 0:
         return r.stderr.decode()
-    for n in set(PADS):
+    for n in set(PADS) | set(PADS_LIGHT):
         pad_path(n)
     return None
 
@@ -242,6 +253,13 @@ def evaluate(path, spec):
 struct_error = __import__("struct").error
 
 
+def time_left():
+    """Seconds a link may still take: up to the wall cap plus a grace period (600 s when there is no cap)."""
+    if DEADLINE is None:
+        return 600
+    return max(5.0, DEADLINE + GRACE - time.time())
+
+
 def run_member(spec, keep=False):
     """-> result dict; never raises for a property-relevant outcome."""
     res = dict(spec=spec, status=None)
@@ -260,9 +278,13 @@ def run_member(spec, keep=False):
                                 text_align=16 if a16 else 4)
         out = os.path.join(d, "out")
         t0 = time.time()
-        rc, msg = wildrun.server_link(["--threads=4", *link_argv(spec, names, "out")], cwd=d, timeout=600)
+        rc, msg = wildrun.server_link(["--threads=4", *link_argv(spec, names, "out")], cwd=d, timeout=time_left())
         res["wild_s"] = round(time.time() - t0, 2)
         res["rc"] = rc
+        if rc == "timeout":                     # the wall cap (or 600 s) ran out: never a verdict
+            res["status"] = "capped"
+            res["timed_out"] = "wild"
+            return res
         if rc == 0:
             res["out_bytes"] = os.path.getsize(out)
             res["eval"] = evaluate(out, spec)
@@ -275,8 +297,14 @@ def run_member(spec, keep=False):
         if rc != 0 or spec.get("calibrate"):
             t0 = time.time()
             lout = os.path.join(d, "out.lld")
-            r = subprocess.run(["ld.lld", *link_argv(spec, names, "out.lld")], cwd=d,
-                               stdout=subprocess.PIPE, stderr=subprocess.PIPE)
+            try:
+                r = subprocess.run(["ld.lld", *link_argv(spec, names, "out.lld")], cwd=d, timeout=time_left(),
+                                   stdout=subprocess.PIPE, stderr=subprocess.PIPE)
+            except subprocess.TimeoutExpired:
+                if rc != 0:                     # no reference verdict for a rejected member: not judged
+                    res["status"] = "capped"
+                    res["timed_out"] = "ld.lld"
+                return res                      # (a calibration run that times out is just skipped)
             res["lld_s"] = round(time.time() - t0, 2)
             res["lld_rc"] = r.returncode
             if r.returncode == 0:
@@ -300,6 +328,8 @@ def judge(chk, res, stats):
     st = res["status"]
     stats["status"][st] = stats["status"].get(st, 0) + 1
     if st == "capped":
+        if res.get("timed_out"):
+            stats["timed_out"] += 1
         return
     stats["evaluations"] += 1
     keytail = f"{spec['kind']}:{spec['form']}:{spec['cls']}"
@@ -357,7 +387,7 @@ def judge(chk, res, stats):
 def new_stats():
     return dict(status={}, evaluations=0, stubs={}, nontrivial=set(), edge_disp=set(), rejected=[],
                 control_rejected=0, other_rejections=[], both_reject=[], lld_walk_failures=[], calibrated=0,
-                lld_runs=0, samples=[], wild_s=0.0, lld_s=0.0, out_bytes=0)
+                lld_runs=0, samples=[], wild_s=0.0, lld_s=0.0, out_bytes=0, timed_out=0)
 
 
 def _worker(spec):
@@ -369,7 +399,7 @@ def _worker(spec):
 
 
 def main():
-    global BASE, DEADLINE
+    global BASE, DEADLINE, GRACE
     chk = vlib.Check("C11", "exploration")
     if not chk.args.no_build:
         vlib.build("wild")
@@ -383,18 +413,22 @@ def main():
         if chk.args.replay:
             with open(chk.args.replay) as f:
                 rp = json.load(f)["replay"]
-            spec = member(rp["family"], rp["kind"], rp["form"], rp["caller"], rp["callee"], rp["out"], rp.get("e", 0))
+            spec = member(rp["family"], rp["kind"], rp["form"], rp["caller"], rp["callee"], rp["out"], rp.get("e", 0),
+                          rp.get("light", False))
             spec["calibrate"] = True
             keep = os.environ.get("C11_KEEP")      # directory that receives the member's inputs
             res = run_member(spec, keep=keep)
             print(json.dumps({k: v for k, v in res.items() if k != "spec"}, indent=1, default=str))
+            if res["status"] == "capped":
+                chk.machinery(f"{res.get('timed_out')} did not finish within 600 s")
             judge(chk, res, stats)
             chk.coverage = {"evaluations": 1, "distinct_nontrivial": 2, "rule": "replay of one recorded member",
                             "samples": stats["samples"], "exhaustive": False}
             chk.finish()
         if chk.thorough:
             members = enumerate_main() + enumerate_edge() + enumerate_ncall() + enumerate_a16() + enumerate_control()
-            cap = float(os.environ.get("C11_CAP_S", 840))
+            cap = float(os.environ.get("C11_CAP_S", 780))
+            GRACE = 60
         else:
             members = quick_members()
             cap = float(os.environ.get("C11_CAP_S", 35))   # members in flight at the cap still finish (<= ~20 s under load)
@@ -405,7 +439,7 @@ def main():
         # one accepted far member per kind is also linked with lld to calibrate the walker
         seen = set() if chk.thorough else {"local", "align32", "custom", "plt"}     # quick: global and ifunc only
         for m in members:
-            if m["family"] == "main" and m["kind"] not in seen and abs(m["caller"] - m["callee"]) >= 3:
+            if m["family"] == "main" and m["kind"] not in seen and m["cls"][1:] in ("far", "vfar"):
                 m["calibrate"] = True
                 seen.add(m["kind"])
         if chk.seed:
@@ -432,6 +466,10 @@ def main():
             chk.machinery(f"the walker does not accept ld.lld's output of {stats['lld_walk_failures'][:3]} "
                           f"(walker or family problem, not a verdict)")
         capped = stats["status"].get("capped", 0)
+        if stats["evaluations"] < 2 or (capped and len(stats["nontrivial"]) < 2):
+            chk.machinery(f"only {stats['evaluations']} members finished within the wall cap of {cap:.0f} s (+{GRACE} s): "
+                          f"the machine is too busy for 130-330 MB links (abandoned links: {stats['timed_out']}); "
+                          f"violations seen so far: {[k for k, _, _ in chk.violations]}")
         n = max(1, stats["evaluations"])
         chk.coverage = {
             "evaluations": stats["evaluations"],
@@ -443,8 +481,9 @@ def main():
                       "part x 5 callee positions x {bl,b} x {exe,pie}; a16: main layout, all .text 16-byte aligned, global callee, "
                       "20 placements x {bl,b} x {exe,pie}; control: CONDBR19/TSTBR14 on adjacent placements. "
                       if chk.thorough else
-                      "quick (a thinned subset of the thorough family): per kind x form one far placement (direction, "
-                      "depth and output kind rotate), six edge members, two ncall and two a16 members, per kind one near/mid placement. ")
+                      "quick: the same generators over the light pad vector (2,2,130,2,2 MiB): per kind x form one "
+                      "placement across the big pad (direction, depth and output kind rotate), six edge members, two ncall "
+                      "and two a16 members, per kind one near placement; plus two members of the thorough family. ")
                      + "A member is non-trivial when the probe's walk passed through a thunk (T) and/or a PLT stub (P), "
                        "or when it was judged a violation; distinct = distinct member ids"),
             "stub_sequences": stats["stubs"],
@@ -459,7 +498,7 @@ def main():
             "wild_link_s_mean": round(stats["wild_s"] / n, 2), "lld_link_s_total": round(stats["lld_s"], 1),
             "output_gib": round(stats["out_bytes"] / 2**30, 1),
             "samples": stats["samples"],
-            "capped": capped, "cap_s": cap,
+            "capped": capped, "cap_s": cap, "abandoned_links": stats["timed_out"],
             "exhaustive": capped == 0 and not only,
         }
         chk.assumptions = [
